@@ -93,12 +93,16 @@ type redisWorld struct {
 	onProbeStart  func()
 
 	migrations int
+	migSlots   map[int]bool
 	migActive  int
 	migSeq     int
 	crashSteps []int64
 	crashTimes []time.Time
 
 	endPhase         int
+	simStart         time.Time
+	progress         int
+	lastProgress     time.Time
 	drainTask        *simhook.Task
 	drainReturned    bool
 	startedStep      int64
@@ -274,6 +278,18 @@ func (w *redisWorld) Check() *simrt.Violation {
 			}
 		}
 	}
+	// any client progress (connect, request issued, reply received) keeps the liveness horizon open
+	prog := 0
+	for _, c := range w.env.Clients {
+		prog += len(c.Sent) + c.Replies
+		if c.Connected {
+			prog++
+		}
+	}
+	if prog != w.progress {
+		w.progress = prog
+		w.lastProgress = time.Now()
+	}
 	// exactly-once, continuously: never a reply nobody asked for, never an unparsable stream
 	for _, c := range w.env.Clients {
 		if c.ParseErr != nil {
@@ -418,9 +434,13 @@ func (w *redisWorld) inject(f *Fault) bool {
 		if src < 0 || src == f.Dst || f.Dst >= len(c.Nodes) || c.Nodes[f.Dst].MasterOf >= 0 || !c.Nodes[f.Dst].Up || !c.Nodes[src].Up {
 			return false
 		}
-		if _, busy := c.Nodes[src].Migrating[slot]; busy {
+		if _, busy := c.Nodes[src].Migrating[slot]; busy || w.migSlots[slot] {
 			return false
 		}
+		if w.migSlots == nil {
+			w.migSlots = map[int]bool{}
+		}
+		w.migSlots[slot] = true
 		w.migrations++
 		w.migrate(slot, src, f.Dst, 0)
 		return true
@@ -564,6 +584,7 @@ func (w *redisWorld) migrate(slot, src, dst, phase int) {
 			// keys created on the source after the last MIGRATE cannot exist: the source answers ASK for missing keys
 			c.MoveAllKeys(slot, src, dst)
 			c.SetSlotOwner(slot, src, dst)
+			delete(w.migSlots, slot)
 			w.rt.Logf("MIG slot %d owner now %d", slot, dst)
 			w.faultsFired["migration-complete"]++
 		}
@@ -641,10 +662,47 @@ func (w *redisWorld) anyEarly() bool {
 	return false
 }
 
+// actorsPending: the scenario's own actors still have work to hand to the proxy (connections to open,
+// requests to issue). The liveness horizon counts from the moment the last of it was issued.
+func (w *redisWorld) actorsPending() bool {
+	if !w.env.Ready() && len(w.sc.Conns) > 0 {
+		for _, c := range w.sc.Conns {
+			if !c.Early {
+				return !w.stopRequested
+			}
+		}
+	}
+	for _, c := range w.env.Clients {
+		if c.EOF || c.Reset || c.GaveUp {
+			continue
+		}
+		if !c.Connected {
+			if w.stopRequested || w.drainTask != nil {
+				continue
+			}
+			return true
+		}
+		if !c.AllSent() && c.Replies == len(c.Sent) {
+			return true // nothing outstanding, more to send: the client is pacing itself
+		}
+	}
+	return false
+}
+
 func (w *redisWorld) Deadline() time.Time {
+	if w.simStart.IsZero() {
+		w.simStart = time.Now()
+	}
+	if w.actorsPending() && time.Since(w.simStart) < 20*w.horizon() {
+		return time.Time{}
+	}
 	if w.firstSend < 0 {
 		if !w.lastFault.IsZero() {
-			return w.lastFault.Add(w.horizon())
+			ref := w.lastFault
+			if w.lastProgress.After(ref) {
+				ref = w.lastProgress
+			}
+			return ref.Add(w.horizon())
 		}
 		// nothing sent yet: the start-up itself must not take forever
 		return time.Time{}
@@ -662,6 +720,9 @@ func (w *redisWorld) Deadline() time.Time {
 		if c.LastSendAt.After(ref) {
 			ref = c.LastSendAt
 		}
+	}
+	if w.lastProgress.After(ref) {
+		ref = w.lastProgress
 	}
 	// pending faults keep the deadline open for a while; a trigger that has not occurred by then never will
 	if !w.allFaultsFired() {
